@@ -8,7 +8,12 @@
                                                 (HTTP/1 or HTTP/2), an existing Host header and a non-empty authority are still there and
                                                 parse to the request's host and port
   * `url_get_set_idempotent_partial`          : assigning `request.url` again leaves the request exactly as it is, provided url.parse reads
-                                                the canonical URL back (true for ASCII hosts; validated differentially)
+                                                the canonical URL back
+  * `netloc_hostport`, `url_parse_reads_getter_url`, `url_get_set_idempotent_ascii` : that proviso PROVED for the transcription of
+                                                urlsplit's scheme/netloc reading (`pySplit`) and urllib's hostname/port reading:
+                                                http/https, lower-case ASCII DNS / IPv4 / bracketed IPv6 hosts, ports 1…65535 with
+                                                default-port elision, ASCII paths; four named library hypotheses remain
+                                                (`GetterUrlOk.bracketedOk/idnaAscii/hostValid/restStable`)
   * `url_get_set_idempotent_counterexample`   : F-C33b — with an IDN host the URL read back is rejected
 -/
 import MitmVerif.Model.C33
@@ -397,6 +402,330 @@ theorem url_get_set_idempotent_partial (P : UrlLib) (r : Req) (u : Str) (r' : Re
   simp only [Option.some.injEq]
   exact reassign_fix P r' hfix
 
+/-! ### url.parse reads the getter's URL back (urlsplit's scheme/netloc reading and the netloc → host/port reading transcribed) -/
+
+private theorem partition_notin (c : Nat) (a : Str) (h : c ∉ a) : partition c a = (a, false, []) := by
+  induction a with
+  | nil => rfl
+  | cons x a ih =>
+    have hx : x ≠ c := fun e => h (by simp [e])
+    have := ih (fun m => h (List.mem_cons_of_mem _ m))
+    simp [partition, hx, this]
+
+private theorem partition_stop (c : Nat) (a r : Str) (h : c ∉ a) : partition c (a ++ c :: r) = (a, true, r) := by
+  induction a with
+  | nil => simp [partition]
+  | cons x a ih =>
+    have hx : x ≠ c := fun e => h (by simp [e])
+    have := ih (fun m => h (List.mem_cons_of_mem _ m))
+    simp [partition, hx, this]
+
+private theorem afterLast_notin (c : Nat) (s : Str) (h : c ∉ s) : afterLast c s = s := by
+  unfold afterLast
+  rw [takeWhile_all _ _ (by
+    intro x hx
+    have : x ≠ c := fun e => h (e ▸ List.mem_reverse.mp hx)
+    simpa using this), List.reverse_reverse]
+
+/-- an ASCII destination host as the getter writes it: well shaped, lower case, and free of the characters that delimit a netloc -/
+structure HostOk (h : Str) : Prop where
+  shape : HostShape h
+  lower : lower h = h
+  ascii : ∀ c ∈ h, c < 128
+  clean : ∀ c ∈ h, c ≠ 9 ∧ c ≠ 13 ∧ c ≠ 47 ∧ c ≠ 63 ∧ c ≠ 35 ∧ c ≠ 64 ∧ c ≠ 37 ∧ c ≠ 91
+
+/-- a request whose URL the getter renders as `scheme://host[:port]/path…`; the last four fields are the named hypotheses about the
+    Python library that are NOT proved here: `_check_bracketed_host` accepts the IPv6 literal, the IDNA round trip leaves the (ASCII)
+    host alone, `is_valid_host` accepts it, and re-assembling the text after the netloc (`urlunparse` of `urlparse`'s path, params,
+    query, fragment) gives back the request's path -/
+structure GetterUrlOk (Q : PyLib) (r : Req) : Prop where
+  notConnect : r.method.map upperC ≠ S "CONNECT"
+  scheme : r.scheme = S "http" ∨ r.scheme = S "https"
+  host : HostOk r.host
+  port : 1 ≤ r.port ∧ r.port ≤ 65535
+  pathSlash : r.path.head? = some 47
+  pathAscii : ∀ c ∈ r.path, c < 128 ∧ c ≠ 9 ∧ c ≠ 10 ∧ c ≠ 13
+  bracketedOk : 58 ∈ r.host → Q.validBracketed r.host = true
+  idnaAscii : Q.idnaRt r.host = some r.host
+  hostValid : Q.validHost r.host = true
+  restStable : Q.normRest r.scheme r.path = r.path
+
+/-- the port text of an authority -/
+private def portStr (s : Str) (p : Nat) : Str := if defaultPort s = some p then [] else decDigits p
+
+private theorem tailOf_chars (s : Str) (p : Nat) : ∀ c ∈ tailOf s p, c = 58 ∨ isDigit c = true := by
+  unfold tailOf
+  split
+  · simp
+  · intro c hc
+    rcases List.mem_cons.mp hc with rfl | hc
+    · exact Or.inl rfl
+    · exact Or.inr (decDigits_digits p c hc)
+
+private theorem digit_range (c : Nat) (h : isDigit c = true) : 48 ≤ c ∧ c ≤ 57 := by
+  simpa [isDigit] using h
+
+private theorem partition58_tail (s : Str) (p : Nat) : (partition 58 (tailOf s p)).2.2 = portStr s p := by
+  unfold tailOf portStr
+  split
+  · rfl
+  · simp [partition]
+
+private theorem partition58_host_tail (s h : Str) (p : Nat) (hc : 58 ∉ h) :
+    (partition 58 (h ++ tailOf s p)).1 = h ∧ (partition 58 (h ++ tailOf s p)).2.2 = portStr s p := by
+  unfold tailOf portStr
+  split
+  · simp [partition_notin 58 h hc]
+  · rw [partition_stop 58 h _ hc]; exact ⟨rfl, rfl⟩
+
+/-- urllib's netloc reading inverts `hostport` -/
+theorem netloc_hostport (s h : Str) (p : Nat) (hk : HostOk h) :
+    hostname (hostport s h p) = some h ∧ (hostinfo (hostport s h p)).2 = portStr s p := by
+  obtain ⟨⟨hne, h10, h93, h91⟩, hlow, _, hclean⟩ := hk
+  have n64 : 64 ∉ h := fun m => (hclean 64 m).2.2.2.2.2.1 rfl
+  have n37 : 37 ∉ h := fun m => (hclean 37 m).2.2.2.2.2.2.1 rfl
+  have n91 : 91 ∉ h := fun m => (hclean 91 m).2.2.2.2.2.2.2 rfl
+  have tch := tailOf_chars s p
+  have t_no (c : Nat) (hc : c ≠ 58) (hd : ¬ (48 ≤ c ∧ c ≤ 57)) : c ∉ tailOf s p := by
+    intro m
+    rcases tch c m with e | e
+    · exact hc e
+    · exact hd (digit_range c e)
+  rw [hostport_eq]
+  have hinfo : hostinfo (bracket h ++ tailOf s p) = (h, portStr s p) := by
+    by_cases hc : 58 ∈ h
+    · have hb : bracket h = 91 :: (h ++ [93]) := by unfold bracket; simp [hc, h91]
+      have e : bracket h ++ tailOf s p = 91 :: (h ++ 93 :: tailOf s p) := by rw [hb]; simp
+      have na : 64 ∉ (91 :: (h ++ 93 :: tailOf s p)) := by
+        simp only [List.mem_cons, List.mem_append, not_or]
+        exact ⟨by decide, n64, by decide, t_no 64 (by decide) (by omega)⟩
+      unfold hostinfo
+      rw [e, afterLast_notin 64 _ na]
+      have p1 : partition 91 (91 :: (h ++ 93 :: tailOf s p)) = ([], true, h ++ 93 :: tailOf s p) := by simp [partition]
+      simp only [p1]
+      rw [partition_stop 93 h _ h93]
+      simp only [partition58_tail]
+    · have hb : bracket h = h := by unfold bracket; simp [hc]
+      have na : 64 ∉ h ++ tailOf s p := by
+        simp only [List.mem_append, not_or]; exact ⟨n64, t_no 64 (by decide) (by omega)⟩
+      have nb : 91 ∉ h ++ tailOf s p := by
+        simp only [List.mem_append, not_or]; exact ⟨n91, t_no 91 (by decide) (by omega)⟩
+      obtain ⟨a, b⟩ := partition58_host_tail s h p hc
+      rw [hb]
+      simp only [hostinfo, afterLast_notin 64 _ na, partition_notin 91 _ nb, a, b]
+  refine ⟨?_, by rw [hinfo]⟩
+  unfold hostname
+  rw [hinfo]
+  simp only [hne, if_false, partition_notin 37 h n37]
+  simp [hlow]
+
+private theorem portOf_hostport (s h : Str) (p : Nat) (hk : HostOk h) (hp : p ≤ 65535) :
+    portOf (hostport s h p) = some (if defaultPort s = some p then none else some p) := by
+  unfold portOf
+  rw [(netloc_hostport s h p hk).2]
+  unfold portStr
+  by_cases hd : defaultPort s = some p
+  · simp [hd]
+  · simp only [hd, if_false, decDigits_ne, parseDec_decDigits, hp, if_true]
+    have : (decDigits p).all isDigit = true := List.all_eq_true.mpr (decDigits_digits p)
+    simp [this]
+
+private theorem hostport_chars (s h : Str) (p : Nat) : ∀ c ∈ hostport s h p, c ∈ h ∨ c = 91 ∨ c = 93 ∨ c = 58 ∨ isDigit c = true := by
+  intro c hc
+  rw [hostport_eq, List.mem_append] at hc
+  rcases hc with hc | hc
+  · unfold bracket at hc
+    split at hc
+    · simp only [List.mem_cons, List.mem_append, List.mem_singleton, List.not_mem_nil, or_false] at hc
+      rcases hc with rfl | hc | rfl
+      · exact Or.inr (Or.inl rfl)
+      · exact Or.inl hc
+      · exact Or.inr (Or.inr (Or.inl rfl))
+    · exact Or.inl hc
+  · rcases tailOf_chars s p c hc with e | e
+    · exact Or.inr (Or.inr (Or.inr (Or.inl e)))
+    · exact Or.inr (Or.inr (Or.inr (Or.inr e)))
+
+private theorem pySplit_eval (vb : Str → Bool) (U s body : Str)
+    (h1 : U.dropWhile isC0OrSpace = U) (h2 : U.filter (fun c => !isUnsafe c) = U)
+    (h3 : U.takeWhile (fun c => c != 58) = s)
+    (h4 : U.contains 58 ∧ s ≠ [] ∧ isAsciiAlpha (U.headD 0) = true ∧ s.all isSchemeChar = true)
+    (h5 : lower s = s) (h6 : U.drop (s.length + 1) = 47 :: 47 :: body)
+    (netloc rest : Str) (h7 : body.takeWhile (fun c => !isNetlocEnd c) = netloc)
+    (h8 : body.dropWhile (fun c => !isNetlocEnd c) = rest)
+    (h9 : (netloc.contains 91 != netloc.contains 93) = false)
+    (h10 : (netloc.contains 91 && !vb (partition 93 (partition 91 netloc).2.2).1) = false) :
+    pySplit vb U = some (s, netloc, rest) := by
+  unfold pySplit
+  simp only [h1, h2, h3]
+  rw [if_pos h4]
+  simp only [h5, h6, List.take, List.drop, h7, h8, h9, h10]
+  simp
+
+/-- urlsplit's scheme/netloc reading on a URL rendered by the getter -/
+private theorem pySplit_getter (vb : Str → Bool) (s h : Str) (p : Nat) (path : Str)
+    (hs : s = S "http" ∨ s = S "https") (hk : HostOk h) (hslash : path.head? = some 47)
+    (hpath : ∀ c ∈ path, c ≠ 9 ∧ c ≠ 10 ∧ c ≠ 13) (hvb : 58 ∈ h → vb h = true) :
+    pySplit vb (s ++ S "://" ++ hostport s h p ++ path) = some (s, hostport s h p, path) := by
+  obtain ⟨⟨hne, h10, h93, h91⟩, _, _, hclean⟩ := hk
+  have hpc := hostport_chars s h p
+  -- characters of the authority
+  have hp_ok : ∀ c ∈ hostport s h p, isUnsafe c = false ∧ isNetlocEnd c = false := by
+    intro c hc
+    rcases hpc c hc with m | rfl | rfl | rfl | d
+    · obtain ⟨a, b, c1, c2, c3, _⟩ := hclean c m
+      have : c ≠ 10 := fun e => h10 (e ▸ m)
+      simp [isUnsafe, isNetlocEnd, a, b, c1, c2, c3, this]
+    · decide
+    · decide
+    · decide
+    · have := digit_range c d
+      simp [isUnsafe, isNetlocEnd]; omega
+  obtain ⟨p0, hp0⟩ : ∃ p0, path = 47 :: p0 := by
+    cases path with
+    | nil => simp at hslash
+    | cons c p0 => simp at hslash; exact ⟨p0, by rw [hslash]⟩
+  -- the rest of the URL after "scheme:"
+  have hclean_all : ∀ c ∈ hostport s h p ++ path, isUnsafe c = false := by
+    intro c hc
+    rcases List.mem_append.mp hc with m | m
+    · exact (hp_ok c m).1
+    · obtain ⟨a, b, d⟩ := hpath c m
+      simp [isUnsafe, a, b, d]
+  have hfilter : (hostport s h p ++ path).filter (fun c => !isUnsafe c) = hostport s h p ++ path := by
+    rw [List.filter_eq_self]
+    intro c hc
+    simp [hclean_all c hc]
+  have hnet := takeWhile_stop (fun c => !isNetlocEnd c) (hostport s h p) 47 p0
+    (by intro c hc; simp [(hp_ok c hc).2]) (by decide)
+  -- the bracket checks
+  have hbr : ((hostport s h p).contains 91 != (hostport s h p).contains 93) = false ∧
+      ((hostport s h p).contains 91 && !vb (partition 93 (partition 91 (hostport s h p)).2.2).1) = false := by
+    have n91 : 91 ∉ h := fun m => (hclean 91 m).2.2.2.2.2.2.2 rfl
+    have tch := tailOf_chars s p
+    have t_no (c : Nat) (hc : c ≠ 58) (hd : ¬ (48 ≤ c ∧ c ≤ 57)) : c ∉ tailOf s p := by
+      intro m
+      rcases tch c m with e | e
+      · exact hc e
+      · exact hd (digit_range c e)
+    rw [hostport_eq]
+    by_cases hc : 58 ∈ h
+    · have hb : bracket h = 91 :: (h ++ [93]) := by unfold bracket; simp [hc, h91]
+      have e : bracket h ++ tailOf s p = 91 :: (h ++ 93 :: tailOf s p) := by rw [hb]; simp
+      rw [e]
+      have p1 : partition 91 (91 :: (h ++ 93 :: tailOf s p)) = ([], true, h ++ 93 :: tailOf s p) := by simp [partition]
+      rw [p1]
+      simp only
+      rw [partition_stop 93 h _ h93]
+      simp [hvb hc]
+    · have hb : bracket h = h := by unfold bracket; simp [hc]
+      rw [hb]
+      have a : (h ++ tailOf s p).contains 91 = false := by
+        have : 91 ∉ h ++ tailOf s p := by
+          simp only [List.mem_append, not_or]; exact ⟨n91, t_no 91 (by decide) (by omega)⟩
+        simpa using this
+      have b : (h ++ tailOf s p).contains 93 = false := by
+        have : 93 ∉ h ++ tailOf s p := by
+          simp only [List.mem_append, not_or]; exact ⟨h93, t_no 93 (by decide) (by omega)⟩
+        simpa using this
+      rw [a, b]
+      exact ⟨rfl, rfl⟩
+  have e1 : S "http" = [104, 116, 116, 112] := by decide
+  have e2 : S "https" = [104, 116, 116, 112, 115] := by decide
+  have e3 : S "://" = [58, 47, 47] := by decide
+  have hsafe : ∀ c ∈ hostport s h p ++ path, (!isUnsafe c) = true := by
+    intro c hc; simp [hclean_all c hc]
+  rcases hs with rfl | rfl
+  · refine pySplit_eval vb _ (S "http") (hostport (S "http") h p ++ path) ?_ ?_ ?_ ?_ (by decide) ?_ _ _
+      (hp0 ▸ hnet.1) (hp0 ▸ hnet.2) hbr.1 hbr.2
+    · simp [e1, e3, isC0OrSpace]
+    · rw [List.filter_eq_self]
+      intro c hc
+      simp only [e1, e3, List.cons_append, List.nil_append, List.append_assoc, List.mem_cons] at hc
+      rcases hc with rfl | rfl | rfl | rfl | rfl | rfl | rfl | hc
+      all_goals first | decide | exact hsafe c hc
+    · simp [e1, e3, List.takeWhile]
+    · simp [e1, e3, isAsciiAlpha, isSchemeChar]
+    · simp [e1, e3]
+  · refine pySplit_eval vb _ (S "https") (hostport (S "https") h p ++ path) ?_ ?_ ?_ ?_ (by decide) ?_ _ _
+      (hp0 ▸ hnet.1) (hp0 ▸ hnet.2) hbr.1 hbr.2
+    · simp [e2, e3, isC0OrSpace]
+    · rw [List.filter_eq_self]
+      intro c hc
+      simp only [e2, e3, List.cons_append, List.nil_append, List.append_assoc, List.mem_cons] at hc
+      rcases hc with rfl | rfl | rfl | rfl | rfl | rfl | rfl | rfl | hc
+      all_goals first | decide | exact hsafe c hc
+    · simp [e2, e3, List.takeWhile]
+    · simp [e2, e3, isAsciiAlpha, isSchemeChar]
+    · simp [e2, e3]
+
+/-- **url.parse reads the getter's URL back.** With urlsplit's scheme/netloc reading (`pySplit`) and the netloc → hostname/port
+    reading transcribed, `url.parse(request.url)` returns the request's own scheme, host, port and path — for http/https, hosts that
+    are lower-case ASCII DNS names, IPv4 literals or (bracketed) IPv6 literals, every port 1…65535 (default ports elided), ASCII
+    paths.  The library facts that remain hypotheses are the last four fields of `GetterUrlOk`. -/
+theorem url_parse_reads_getter_url (Q : PyLib) (r : Req) (ok : GetterUrlOk Q r) :
+    urlParse (pyLib Q) (url r) = some (r.scheme, r.host, r.port, r.path) := by
+  obtain ⟨hm, hs, hk, ⟨hp1, hp2⟩, hslash, hpa, hvb, hidna, hvalid, hrest⟩ := ok
+  have hne42 : r.path ≠ [42] := by
+    intro e; rw [e] at hslash; simp at hslash
+  have hurl : url r = r.scheme ++ S "://" ++ hostport r.scheme r.host r.port ++ r.path := by
+    unfold url unparse; simp [hm, hne42]
+  have hsplit := pySplit_getter Q.validBracketed r.scheme r.host r.port r.path hs hk hslash
+    (fun c hc => ⟨(hpa c hc).2.1, (hpa c hc).2.2.1, (hpa c hc).2.2.2⟩) hvb
+  obtain ⟨hhost, _⟩ := netloc_hostport r.scheme r.host r.port hk
+  have hport := portOf_hostport r.scheme r.host r.port hk hp2
+  -- all characters are ASCII
+  have hascii : (url r).any (fun c => c ≥ 128) = false := by
+    rw [List.any_eq_false]
+    intro c hc
+    rw [hurl] at hc
+    simp only [List.mem_append] at hc
+    have : c < 128 := by
+      rcases hc with ((hc | hc) | hc) | hc
+      · rcases hs with e | e <;> (rw [e] at hc; revert c; decide)
+      · revert c; decide
+      · rcases hostport_chars _ _ _ c hc with m | rfl | rfl | rfl | d
+        · exact hk.ascii c m
+        · decide
+        · decide
+        · decide
+        · have := digit_range c d; omega
+      · exact (hpa c hc).1
+    simp; omega
+  have hdflt : defaultPort r.scheme = some r.port → (if r.scheme = S "https" then 443 else 80) = r.port := by
+    intro h
+    rcases hs with e | e
+    · rw [e] at h ⊢
+      have d : defaultPort (S "http") = some 80 := by decide
+      have n : ¬ (S "http" = S "https") := by decide
+      rw [d] at h
+      rw [if_neg n]; exact Option.some.inj h
+    · rw [e] at h ⊢
+      have d : defaultPort (S "https") = some 443 := by decide
+      rw [d] at h
+      rw [if_pos rfl]; exact Option.some.inj h
+  unfold urlParse
+  have hsp : (pyLib Q).split (url r) = some (r.scheme, hostport r.scheme r.host r.port, r.path) := by
+    show (pySplit Q.validBracketed (url r)).map _ = _
+    rw [hurl, hsplit]
+    simp [hrest, hslash]
+  rw [hsp]
+  simp only [hhost]
+  have hid : (pyLib Q).idnaRt r.host = some r.host := hidna
+  have hv : (pyLib Q).validHost r.host = true := hvalid
+  simp only [hid, hascii, hport, hv]
+  by_cases hd : defaultPort r.scheme = some r.port
+  · simp [hd, hdflt hd]
+  · have : r.port ≠ 0 := by omega
+    simp [hd, this]
+
+/-- **C33 (url).** Assigning `request.url` again leaves the request exactly as it is — now without the "url.parse reads it back"
+    hypothesis: it is discharged by `url_parse_reads_getter_url` for every request the setter produces whose fields satisfy
+    `GetterUrlOk` (http/https, ASCII host, ASCII path). -/
+theorem url_get_set_idempotent_ascii (Q : PyLib) (r : Req) (u : Str) (r' : Req) (h1 : setUrl (pyLib Q) r u = some r')
+    (ok : GetterUrlOk Q r') : setUrl (pyLib Q) r' (url r') = some r' :=
+  url_get_set_idempotent_partial (pyLib Q) r u r' h1 (url_parse_reads_getter_url Q r' ok)
+
 /-! ### F-C33b: IDN hosts -/
 private def uA : Str := S "http://xn--bcher-kva.example/p"
 private def hA : Str := S "xn--bcher-kva.example"
@@ -443,5 +772,29 @@ private def asciiLib : UrlLib where
 example : setUrl asciiLib ((setUrl asciiLib req0 (S "http://[::1]:8080/a")).getD req0)
       (url ((setUrl asciiLib req0 (S "http://[::1]:8080/a")).getD req0)) =
     some ((setUrl asciiLib req0 (S "http://[::1]:8080/a")).getD req0) := by decide +kernel
+
+/-- `GetterUrlOk` is satisfiable, e.g. by the request the setter makes of `http://[::1]:8080/a` (bracketed IPv6, explicit port),
+    with a library whose unproved parts behave as Python's do on it -/
+private def okLib : PyLib where
+  validBracketed _ := true
+  normRest _ r := r
+  idnaRt h := some h
+  validHost _ := true
+  normAuth x := x
+
+private def okReq : Req :=
+  { h2 := false, method := S "GET", scheme := S "http", host := S "::1", port := 8080, path := S "/a?b=c",
+    hostHeader := some (S "[::1]:8080"), authority := [] }
+
+example : urlParse (pyLib okLib) (url okReq) = some (okReq.scheme, okReq.host, okReq.port, okReq.path) :=
+  url_parse_reads_getter_url okLib okReq
+    { notConnect := by decide +kernel, scheme := Or.inl rfl,
+      host := ⟨⟨by decide, by decide, by decide, by decide⟩, by decide, by decide, by decide⟩,
+      port := by decide, pathSlash := by decide, pathAscii := by decide,
+      bracketedOk := fun _ => rfl, idnaAscii := rfl, hostValid := rfl, restStable := rfl }
+
+example : pySplit (fun _ => true) (S "HTTP://User@[::1]:8080/a?b#c") = some (S "http", S "User@[::1]:8080", S "/a?b#c") ∧
+    pySplit (fun _ => true) (S "http://[::1/") = none ∧
+    pySplit (fun _ => true) (S " \thttp:/x") = some (S "http", [], S "/x") := by decide +kernel
 
 end MitmVerif.Props.C33
